@@ -120,10 +120,10 @@ func (e *Evaluator) constOf(info *types.Info, x ast.Expr) *types.Const {
 
 // FSMEdge is one transition of a looplab/fsm Events literal.
 type FSMEdge struct {
-	Event string
-	Src   []string
-	Dst   string
-	Pos   token.Pos
+	Event  string
+	Src    []string
+	Dst    string
+	Pos    token.Pos
 	DynDst bool // destination is not a constant (e.g. lastStatus)
 }
 
